@@ -617,6 +617,9 @@ func stripIndex(s string) string {
 // Refine names the iteration site(s) whose order matters: after minimisation the schedule
 // tape is all zeros except for the events that are needed for the difference.
 func (p Prop) Refine(v *core.Violation, t, s []uint32, exec func(t, s []uint32) (*core.Violation, *core.Run)) *core.Violation {
+	if !strings.HasPrefix(v.Kind, "differs:") {
+		return v // direct violations (re-encoding, construction history) are not schedule dependent
+	}
 	verifsim.RecordEventsDefault = true
 	defer func() { verifsim.RecordEventsDefault = false }()
 	nv, run := exec(t, s)
